@@ -98,7 +98,36 @@ def impl_one(d, k, c, q):
         f'tr={tr}',
         f'ovpt={s_b(R.overlaps((c, q)))}', f'haskey={s_b(q in R)}',
         f'ltpt={call(lambda: R.__lt__((c, q)), ltpt)}',
+        f'strict={impl_strict(d)}',
     ])
+
+
+_GRID = {}
+
+
+def impl_strict(d):
+    """the `strict` branch of the real Circuit.check_region on a full grid of
+    single-qudit gates (where every in-range region is otherwise valid)"""
+    if not d:
+        return '-'
+    from bqskit.ir.circuit import Circuit
+    from bqskit.ir.gates import HGate
+    nq = max(d) + 1
+    depth = max(b for _, b in d.values()) + 1
+    key = (nq, depth)
+    if key not in _GRID:
+        c = Circuit(nq)
+        for _ in range(depth):
+            for q in range(nq):
+                c.append_gate(HGate(), q)
+        _GRID[key] = c
+    try:
+        _GRID[key].check_region(d, strict=True)
+        return 'T'
+    except ValueError as e:
+        if 'Disconnect' in str(e):
+            return 'F'
+        return f'!!{e}'.replace(' ', '_')
 
 
 def impl_pair(d, e):
@@ -212,6 +241,9 @@ def oracle_one(d, k, c, q):
         f'shr={s_region({qq: (a + k, b + k) for qq, (a, b) in d.items()})}',
         f'tr={tr}', f'ovpt={s_b((c, q) in P)}', f'haskey={s_b(q in d)}',
         f'ltpt={ltpt}',
+        'strict=' + ('-' if not d else s_b(any(
+            all(a <= x <= b for a, b in d.values())
+            for x in range(0, max(his) + 1)))),
     ])
 
 
